@@ -33,6 +33,7 @@ ASSUMPTIONS = ["SimTransport mirrors asyncio's selector transport (write after l
                "a stalled (not reading) peer is always un-stalled or reset before the oracle runs"]
 REQUIRED_OBS = ["recovered", "resets_seen", "fault_atoms_effective", "probe_cmd_written",
                 "probe_status_delivered", "api_level_recoveries"]
+SOAK = True   # also judged by the whole-run monitors of the soak sessions (vf/soak.py)
 BUDGET = {"quick": 100, "thorough": 1500}
 
 EPS = 1e-6
